@@ -4,6 +4,7 @@ package c20
 
 import (
 	"os"
+	"sync"
 
 	"cedarverif/internal/ccbreplay"
 	"cedarverif/internal/core"
@@ -36,30 +37,45 @@ func run(c *core.Ctx) {
 		gens[1].cfg = "Gen_C20_std2.cfg"
 		gens[3].cfg = "Gen_C20_proxy2.cfg"
 	}
+	// the TLC runs are independent of each other: run them side by side
+	var wg sync.WaitGroup
 	if c.Replay == "" && os.Getenv("VERIF_DEV_SKIPMC") == "" {
 		for _, m := range mcs {
-			if kit.ModelCheck(c, "CCBDial.tla", m, tlc.Options{Workers: 16}) == nil {
-				return
-			}
+			wg.Add(1)
+			go func(m string) {
+				defer wg.Done()
+				kit.ModelCheck(c, "CCBDial.tla", m, tlc.Options{Workers: 4})
+			}(m)
 		}
 	}
 	tabs := map[string]*ccbreplay.Table{}
+	var mu sync.Mutex
 	nBeh := 0
 	for _, g := range gens {
-		raws := kit.Generate(c, "Gen_CCBDial.tla", g.cfg, tlc.Options{})
-		if c.IsBroken() {
-			return
-		}
-		t, err := ccbreplay.BuildTable(raws)
-		if err != nil {
-			c.Broken("bad behaviour JSON (%s): %v", g.cfg, err)
-			return
-		}
-		tabs[g.name] = t
-		nBeh += len(raws)
-		if len(raws) > 0 {
-			c.Sample(string(raws[len(raws)/2]))
-		}
+		wg.Add(1)
+		go func(g genCfg) {
+			defer wg.Done()
+			raws := kit.Generate(c, "Gen_CCBDial.tla", g.cfg, tlc.Options{})
+			if raws == nil {
+				return
+			}
+			t, err := ccbreplay.BuildTable(raws)
+			if err != nil {
+				c.Broken("bad behaviour JSON (%s): %v", g.cfg, err)
+				return
+			}
+			mu.Lock()
+			tabs[g.name] = t
+			nBeh += len(raws)
+			mu.Unlock()
+			if len(raws) > 0 {
+				c.Sample(string(raws[len(raws)/2]))
+			}
+		}(g)
+	}
+	wg.Wait()
+	if c.IsBroken() {
+		return
 	}
 	if err := ccbreplay.Prime(); err != nil {
 		c.Broken("C20 fixture: %v", err)
